@@ -1,4 +1,5 @@
 import EpModel.Lemmas.CodecNetIpv6
+import EpModel.Lemmas.CodecNetIpv6Frag
 /-
   C08 (network-layer half) — every header value survives encode → decode unchanged.
 
@@ -91,5 +92,72 @@ example : Ipv6Header.fromSlice (Ipv6Header.sampleMax.toBytes ++ [1, 2, 3]) =
     .ok (Ipv6Header.sampleMax, [1, 2, 3]) := by rfl
 
 end Ipv6
+
+/-! ## Ipv6FragmentHeader -/
+namespace Ipv6Frag
+open EpModel.Lemmas.CodecNet.Ipv6Frag
+
+/-- `to_bytes` and `write` produce the same 8 = `header_len()` bytes. -/
+theorem encoders_agree (h : Ipv6FragmentHeader) :
+    h.toBytes = h.writeOut ∧ h.toBytes.length = h.headerLen :=
+  ⟨rfl, rfl⟩
+
+theorem decode_encode (h : Ipv6FragmentHeader) (tail : Bytes) (wf : h.WF) :
+    Ipv6FragmentHeader.fromSlice (h.toBytes ++ tail) = .ok (h, tail) := by
+  unfold Ipv6FragmentHeader.fromSlice
+  rw [slice_of_toBytes h tail]
+  simp only [toHeader_toBytes h wf]
+  rw [List.drop_left' (toBytes_length h)]
+
+/-- the reserved bits written out: byte 1 and bits 1–2 of byte 3 are cleared, nothing else. -/
+theorem maskReserved_spec (b0 b1 b2 b3 b4 b5 b6 b7 : UInt8) :
+    maskReserved .ipv6Frag [b0, b1, b2, b3, b4, b5, b6, b7]
+      = [b0, 0, b2, u8 (b3.toNat &&& 0xf9), b4, b5, b6, b7] :=
+  maskReserved_eq b0 b1 b2 b3 b4 b5 b6 b7
+
+/-- re-encoding an accepted byte string reproduces its first 8 bytes except for the reserved
+    byte/bits (which `to_bytes` writes as zero), and decoding again gives the same value. -/
+theorem encode_decode (b : Bytes) (h : Ipv6FragmentHeader) (rest : Bytes)
+    (hd : Ipv6FragmentHeader.fromSlice b = .ok (h, rest)) :
+    h.toBytes = maskReserved .ipv6Frag (b.take h.headerLen) ∧
+      Ipv6FragmentHeader.fromSlice (h.toBytes ++ rest) = .ok (h, rest) := by
+  obtain ⟨hlen, rfl, rfl⟩ := fromSlice_ok b h rest hd
+  refine ⟨?_, decode_encode _ _ (toHeader_wf _)⟩
+  obtain ⟨b0, b, rfl⟩ := exists_cons b (by omega)
+  obtain ⟨b1, b, rfl⟩ := exists_cons b (by simp at hlen; omega)
+  obtain ⟨b2, b, rfl⟩ := exists_cons b (by simp at hlen; omega)
+  obtain ⟨b3, b, rfl⟩ := exists_cons b (by simp at hlen; omega)
+  obtain ⟨b4, b, rfl⟩ := exists_cons b (by simp at hlen; omega)
+  obtain ⟨b5, b, rfl⟩ := exists_cons b (by simp at hlen; omega)
+  obtain ⟨b6, b, rfl⟩ := exists_cons b (by simp at hlen; omega)
+  obtain ⟨b7, b, rfl⟩ := exists_cons b (by simp at hlen; omega)
+  simp only [Ipv6FragmentHeader.headerLen, List.take_succ_cons, List.take_zero]
+  rw [toBytes_toHeader, maskReserved_eq]
+
+theorem decoded_wf (b : Bytes) (h : Ipv6FragmentHeader) (rest : Bytes)
+    (hd : Ipv6FragmentHeader.fromSlice b = .ok (h, rest)) : h.WF := by
+  obtain ⟨_, rfl, _⟩ := fromSlice_ok b h rest hd
+  exact toHeader_wf _
+
+theorem slice_eq_struct (b : Bytes) :
+    Ipv6FragmentHeader.fromSlice b =
+      (Ipv6FragmentHeaderSlice.fromSlice b).map (fun s => (s.toHeader, b.drop s.slice.length)) := by
+  unfold Ipv6FragmentHeader.fromSlice Ipv6FragmentHeaderSlice.fromSlice
+  by_cases hlen : b.length < 8
+  · simp [hlen, Except.map]
+  · have : min 8 b.length = 8 := by omega
+    simp [hlen, Except.map, this]
+
+/-- `is_fragmenting_payload` of slice and struct agree. -/
+theorem slice_accessors (s : Ipv6FragmentHeaderSlice) :
+    s.isFragmentingPayload = s.toHeader.isFragmentingPayload := rfl
+
+example : Ipv6FragmentHeader.WF Ipv6FragmentHeader.sampleMax := by decide
+example : Ipv6FragmentHeader.sampleMax.toBytes = [255, 0, 0xff, 0xf9, 255, 255, 255, 255] := by rfl
+/-- a byte string with all reserved bits set is accepted and re-encoded with them cleared. -/
+example : (Ipv6FragmentHeader.fromSlice [6, 0xff, 0xff, 0xff, 1, 2, 3, 4, 9]).map
+    (fun r => (r.1.toBytes, r.2)) = .ok ([6, 0, 0xff, 0xf9, 1, 2, 3, 4], [9]) := by rfl
+
+end Ipv6Frag
 
 end EpModel.Props.C08Net
